@@ -61,6 +61,15 @@ def gen_treebank(rng, kmax=5, nmax=8, disc=True, repeat=True, words=None):
     ts = []
     if repeat and rng.random() < 0.25:
         return context_variants(rng)
+    if rng.random() < 0.08:
+        # a very flat constituent: more than ten children (two-digit variable numbers in RCG)
+        from impl import mk_leaf, mk_node
+        n = rng.randint(11, 14)
+        kids = [mk_leaf(i + 1, rng.choice(["NN", "KON", "ART"]), (words or ["a", "b", "Haus"])[i % 3], "--", "--", "--") for i in range(n)]
+        t = mk_node("VROOT", [mk_node("NP", kids, edge="--", lemma="--", morph="--"), mk_leaf(n + 1, "$.", ".", "--", "--", "--")],
+                    edge="--", lemma="--", morph="--")
+        t.data['sid'] = 1
+        return [t]
     k = rng.randint(1, kmax)
     labels = rng.choice([["S", "VP", "NP"], ["A", "B"], treegen.PLAIN_LABELS])
     for _ in range(k):
@@ -92,7 +101,7 @@ def context_variants(rng):
     labs = [rng.choice(["DT", "JJ", "NN", "NE"]) for _ in range(k)]
 
     def sub(offset):
-        kids = [mk_leaf(offset + i + 1, labs[i], "w%d" % i, "--", "--", "--") for i in range(k)]
+        kids = [mk_leaf(offset + i + 1, labs[i], "w" + "abcdefgh"[i], "--", "--", "--") for i in range(k)]
         return mk_node("NP", kids, edge="--", lemma="--", morph="--")
     out = []
     for variant in rng.sample(["cont", "disc", "other", "cont"], rng.randint(2, 4)):
